@@ -21,7 +21,9 @@ SCOPE = ("BOUNDED: structure (the composite grammar, null / empty / absent posit
          "(unscaled) and bigint are also enumerated on byte-wise defined wide integers at every byte-length boundary up "
          "to 72 bits (magnitudes 2^(8k-1)-1, 2^(8k-1), 2^(8k-1)+1 for k = 1..9, both signs, plus some byte patterns; "
          "bigint's int64 range limits included) - at those boundaries only, not arbitrary wide values. Wide vints "
-         "(durations beyond 2^30), float/double bit patterns, the textual forms of inet / uuid, UTF-8 validation and "
+         "(durations beyond 2^30), float/double bit patterns, the textual forms of uuid and of inet (except the RFC 4291 mixed notation "
+         "x:x:x:x:x:x:d.d.d.d and its '::' forms, which Codec.tla writes and reads back for IPv4-mapped / -compatible / "
+         "NAT64 / documentation-prefix addresses; every other inet text is the platform's inet_ntop), UTF-8 validation and "
          "calendar arithmetic over large ranges are outside what this TLA+ specification can decide and are not covered "
          "(timestamps given as a wall-clock reading with a UTC offset are covered for readings within a day of the epoch).")
 
